@@ -52,6 +52,17 @@ func (n *node) coq() string {
 	case kLink:
 		return App("Link", Str(n.target))
 	}
+	if len(n.children) > 8 {
+		flat := true
+		names := make([]string, len(n.children))
+		for i, ch := range n.children {
+			flat = flat && ch.kind == kFile
+			names[i] = ch.name
+		}
+		if flat {
+			return App("flat_tree", Str(strings.Join(names, "/")))
+		}
+	}
 	items := make([]string, len(n.children))
 	for i, ch := range n.children {
 		items[i] = Pair(Str(ch.name), ch.coq())
@@ -121,6 +132,10 @@ var alphabets = [][]rune{
 	[]rune("ax*?[\\-"),
 	[]rune("bcdx"),
 	[]rune("aB1. -_"),
+	[]rune("aeé中😀"),
+	[]rune("xzaéñ"),
+	[]rune("dseéñ😀"),
+	[]rune("ab中😀"),
 }
 
 func genName(c *reg.Ctx, al []rune) string {
@@ -165,7 +180,11 @@ func genTree(c *reg.Ctx, vocab []string, depth int) *node {
 			// symlink: to a vocabulary name (may or may not exist here), to the parent,
 			// to a path below, or to itself
 			var t string
-			switch c.Rand.Intn(6) {
+			k := c.Rand.Intn(6)
+			if depth < 2 && (k == 0 || k == 3) {
+				k = 5 // a link that leads above the generated root is outside the model
+			}
+			switch k {
 			case 0:
 				t = ".."
 			case 1:
@@ -660,6 +679,48 @@ type tok struct {
 
 func genElem(c *reg.Ctx, name string, vocab []string) []tok {
 	rs := []rune(name)
+	// fixed run over rs[i:j]: each rune as itself or as ?
+	fixedRun := func(i, j int) []tok {
+		var ts []tok
+		for _, r := range rs[i:j] {
+			if c.Rand.Intn(2) == 0 {
+				ts = append(ts, tok{wild: "?"})
+			} else {
+				ts = append(ts, tok{lit: string(r)})
+			}
+		}
+		return ts
+	}
+	if c.Rand.Intn(3) == 0 {
+		// [prefix] * fixed-run [* fixed-run]: the chunks after a star end at the
+		// last runes of the name, so their size in runes vs bytes matters
+		star := "*"
+		if c.Rand.Intn(5) == 0 {
+			star = "**"
+		}
+		n := len(rs)
+		a := c.Rand.Intn(n + 1)     // prefix rs[:a] literal or dropped
+		b := a + c.Rand.Intn(n-a+1) // first star covers rs[a:b]
+		var ts []tok
+		if a > 0 && c.Rand.Intn(2) == 0 {
+			ts = append(ts, fixedRun(0, a)...)
+			ts = append(ts, tok{wild: star})
+		} else {
+			ts = append(ts, tok{wild: star})
+			b = a + c.Rand.Intn(n-a+1)
+		}
+		if b < n && c.Rand.Intn(3) == 0 {
+			// two chunks: fixed rs[b:m], star over part, fixed tail
+			m := b + 1 + c.Rand.Intn(n-b)
+			e := m + c.Rand.Intn(n-m+1)
+			ts = append(ts, fixedRun(b, m)...)
+			ts = append(ts, tok{wild: "*"})
+			ts = append(ts, fixedRun(e, n)...)
+		} else {
+			ts = append(ts, fixedRun(b, n)...)
+		}
+		return compactKeepQ(ts)
+	}
 	switch c.Rand.Intn(12) {
 	case 0:
 		return []tok{{lit: name}}
@@ -712,6 +773,9 @@ func genElem(c *reg.Ctx, name string, vocab []string) []tok {
 		return compact(ts)
 	}
 }
+
+// compactKeepQ merges neighbouring literals and stars, keeps every ?
+func compactKeepQ(ts []tok) []tok { return compact(ts) }
 
 func compact(ts []tok) []tok {
 	var out []tok
@@ -929,6 +993,25 @@ func toksToPieces(c *reg.Ctx, w *world, ts []tok, al []rune, vocab []string, all
 			continue
 		}
 		p := piece{Wild: t.wild}
+		if t.wild == "?" && c.Rand.Intn(3) == 0 {
+			// single-character matcher: a set or a range over the alphabet
+			if c.Rand.Intn(2) == 0 {
+				p.Mods = append(p.Mods, mod{Kind: "set", Arg: string(al)})
+			} else {
+				lo, hi := al[0], al[0]
+				for _, r := range al {
+					if r < lo {
+						lo = r
+					}
+					if r > hi {
+						hi = r
+					}
+				}
+				p.Mods = append(p.Mods, mod{Kind: "range", Lo: lo, Hi: hi, Incl: true})
+			}
+			ps = append(ps, p)
+			continue
+		}
 		nm := 0
 		switch r := c.Rand.Intn(10); {
 		case r < 4:
@@ -1133,10 +1216,108 @@ func flatCases(c *reg.Ctx, n int) {
 	}
 }
 
+// sweepCases: every pattern of <= 4 tokens over {*, ?, a, é} against every name
+// of <= 3 runes over {a, é, 中} in one flat directory (matchElement alone);
+// patterns that parse to the same segments are run once.
+func sweepCases(c *reg.Ctx) {
+	nameAl := []string{"a", "é", "中"}
+	var names []string
+	cur := []string{""}
+	for l := 0; l < 3; l++ {
+		var next []string
+		for _, s := range cur {
+			for _, r := range nameAl {
+				next = append(next, s+r)
+			}
+		}
+		names = append(names, next...)
+		cur = next
+	}
+	root := dir("")
+	for _, nm := range names {
+		root.children = append(root.children, lit(nm))
+	}
+	sort.Slice(root.children, func(i, j int) bool { return root.children[i].name < root.children[j].name })
+	w := newWorld(c, root, nil)
+	toks := []string{"*", "?", "a", "é"}
+	seen := map[string]bool{}
+	pats := []string{""}
+	for l := 0; l < 4; l++ {
+		var next []string
+		for _, p := range pats {
+			if len([]rune(p)) == l {
+				for _, t := range toks {
+					next = append(next, p+t)
+				}
+			}
+		}
+		pats = append(pats, next...)
+	}
+	for _, p := range pats[1:] {
+		key := segsCoq(glob.Parse(p))
+		if seen[key] {
+			continue
+		}
+		seen[key] = true
+		runGlob(c, w, p)
+	}
+	// 4-byte runes and single-character matchers on the same kind of names
+	root2 := dir("")
+	al2 := []rune("aé中😀z")
+	for _, r1 := range al2 {
+		root2.children = append(root2.children, lit(string(r1)))
+		for _, r2 := range al2 {
+			root2.children = append(root2.children, lit(string([]rune{r1, r2})))
+		}
+	}
+	for _, nm := range []string{"xaé", "azé", "señ", "aé中", "中é😀", "😀a😀", "zz中"} {
+		root2.children = append(root2.children, lit(nm))
+	}
+	sort.Slice(root2.children, func(i, j int) bool { return root2.children[i].name < root2.children[j].name })
+	w2 := newWorld(c, root2, nil)
+	for _, p := range []string{"*??", "*z?", "x*a?", "**e?", "*?", "*é", "*?é", "*中?", "?*?", "*😀", "*?😀", "a*?", "*a?*?", "*?*?", "**??", "*é?"} {
+		runGlob(c, w2, p)
+	}
+	toks2 := []string{"a", "é", "中", "😀", "z", "*", "?", "?", "**"}
+	for i := 0; i < c.N/10; i++ {
+		k := 2 + c.Rand.Intn(4)
+		var ts []tok
+		for j := 0; j < k; j++ {
+			t := toks2[c.Rand.Intn(len(toks2))]
+			if j == 0 && c.Rand.Intn(2) == 0 {
+				t = "*"
+			}
+			if t == "*" || t == "?" || t == "**" {
+				ts = append(ts, tok{wild: t})
+			} else {
+				ts = append(ts, tok{lit: t})
+			}
+		}
+		ts = compact(ts)
+		if i%2 == 0 {
+			var sb strings.Builder
+			for _, t := range ts {
+				sb.WriteString(t.wild + t.lit)
+			}
+			runGlob(c, w2, sb.String())
+			continue
+		}
+		hw := false
+		for _, t := range ts {
+			hw = hw || t.wild != ""
+		}
+		if !hw {
+			ts = append([]tok{{wild: "*"}}, ts...)
+		}
+		runElvish(c, w2, toksToPieces(c, w2, ts, al2, []string{"a", "aé", "😀"}, nil))
+	}
+}
+
 func run(c *reg.Ctx) {
 	home, _ := os.Getwd()
 	defer os.Chdir(home)
 	fixedCases(c)
+	sweepCases(c)
 	flatCases(c, c.N/12)
 
 	perTree := 24
